@@ -325,13 +325,22 @@ def _gen_melody_params(rng):
 
 REJECTIONS = ['chords-has-chords', 'chords-unquantized-cpb', 'chords-no-beats', 'chords-uncommon-meter',
               'chords-non-integer-steps', 'chords-empty', 'chords-too-long', 'melody-quantized', 'melody-too-many-frames',
-              'melody-no-pitches']
+              'melody-no-pitches',
+              # the offending element is not the first one stored / the sequence is otherwise fine / other quantization kind
+              'chords-has-chords-late', 'chords-has-chords-unquantized', 'chords-absolute-cpb', 'chords-no-beats-other-text',
+              'chords-no-beats-absolute', 'chords-too-long-beats', 'chords-just-short-enough', 'melody-quantized-absolute',
+              'melody-just-few-enough-frames']
 EXPECTED_REJECTION = {
     'chords-has-chords': 'SequenceAlreadyHasChordsError', 'chords-unquantized-cpb': 'QuantizationStatusError',
     'chords-no-beats': 'QuantizationStatusError', 'chords-uncommon-meter': 'UncommonTimeSignatureError',
     'chords-non-integer-steps': 'NonIntegerStepsPerChordError', 'chords-empty': 'EmptySequenceError',
     'chords-too-long': 'SequenceTooLongError', 'melody-quantized': 'MelodyInferenceError',
-    'melody-too-many-frames': 'MelodyInferenceError', 'melody-no-pitches': None}
+    'melody-too-many-frames': 'MelodyInferenceError', 'melody-no-pitches': None,
+    'chords-has-chords-late': 'SequenceAlreadyHasChordsError', 'chords-has-chords-unquantized': 'SequenceAlreadyHasChordsError',
+    'chords-absolute-cpb': 'QuantizationStatusError', 'chords-no-beats-other-text': 'QuantizationStatusError',
+    'chords-no-beats-absolute': 'QuantizationStatusError', 'chords-too-long-beats': 'SequenceTooLongError',
+    'chords-just-short-enough': 'ACCEPTED', 'melody-quantized-absolute': 'MelodyInferenceError',
+    'melody-just-few-enough-frames': 'ACCEPTED'}
 
 
 def corpus():
@@ -351,6 +360,24 @@ def corpus():
     out.append({'op': 'chords_e2e', 'input': {   # C E G + half-frame Bb | F | G | C  (seeded change C19-1): C F G C, not C7
         'mode': 'fixed', 'num': 4, 'den': 4, 'spq': 4, 'qpm': 120, 'cpb': 2, 'spc': S, 'steps_per_chord': 8, 'total': 4 * S,
         'notes': [[p, a * S // 2, b * S // 2] for p, a, b in demo], 'k': 5, 'addkeys': True, 'params': {}}})
+    # rare but legal shapes: nothing at all; total_time 0; one zero-length note; a beat-annotated sequence without notes
+    out.append({'op': 'melody_e2e', 'input': {'notes': [], 'total': 0, 'k': 1, 'params': {}}})
+    out.append({'op': 'melody_e2e', 'input': {'notes': [], 'total': 64 * GRID, 'k': 1, 'params': {}}})
+    out.append({'op': 'melody_e2e', 'input': {'notes': [[60, 0, 0, 0, 0, 0]], 'total': 0, 'k': 1, 'params': {}}})
+    out.append({'op': 'melody_e2e', 'input': {'notes': [[60, 0, 0, 0, 0, 0]], 'total': 64 * GRID, 'k': 1, 'params': {}}})
+    out.append({'op': 'melody_e2e', 'input': {'notes': [[60, 0, 64 * GRID, 8, 0, 0]], 'total': 64 * GRID, 'k': 1, 'params': {}}})
+    out.append({'op': 'melody_twice', 'input': {'notes': [[60, 0, 64 * GRID, 8, 0, 0], [64, 32 * GRID, 96 * GRID, 0, 0, 0]],
+                                                 'total': 96 * GRID}})
+    out.append({'op': 'chords_e2e', 'input': {'mode': 'beats', 'beats': [0], 'total': 0, 'notes': [], 'k': 1, 'addkeys': True,
+                                               'params': {}, 'extras': False}})
+    out.append({'op': 'chords_e2e', 'input': {'mode': 'beats', 'beats': [0, 64 * GRID], 'total': 128 * GRID, 'notes': [], 'k': 1,
+                                               'addkeys': False, 'params': {}, 'extras': True}})
+    out.append({'op': 'chords_e2e', 'input': {'mode': 'beats_q', 'beats': [64 * GRID], 'total': 128 * GRID,
+                                               'notes': [[60, 128 * GRID, 128 * GRID]], 'k': 1, 'addkeys': True, 'params': {},
+                                               'extras': True}})
+    out.append({'op': 'pitch_vectors', 'input': {'notes': [[60, 0, 64 * GRID, 0, 0, 0]], 'total': 64 * GRID, 'spf': []}})
+    out.append({'op': 'pitch_vectors', 'input': {'notes': [[60, 64 * GRID, 64 * GRID, 0, 0, 0], [61, 0, 64 * GRID, 0, 1, 0]],
+                                                  'total': 64 * GRID, 'spf': 64 * GRID}})
     # seeded change C19-5: instantaneous_missing_pitch_prob must not be replaced by instantaneous_non_max_pitch_prob
     G64 = 64 * GRID
     for gap in ([[48, 0, 3 * G64, 0, 0, 0], [72, 0, G64, 0, 0, 0], [72, 2 * G64, 3 * G64, 0, 0, 0]],
@@ -417,20 +444,32 @@ def cases(rng, tier, n=None):
         if mode == 'fixed':
             g = _gen_grid(rng)
             g.update({'mode': mode, 'total': (T - 1) * g['spc'] + rng.choice([g['spc'], g['spc'] // 2, 1]),
-                      'figs': figs, 'keys': keys})
+                      'figs': figs, 'keys': keys, 'extras': rng.random() < 0.4})
             out.append({'op': 'chord_write', 'input': g})
         else:
             beats, total = _gen_beats(rng, T)
-            out.append({'op': 'chord_write', 'input': {'mode': mode, 'beats': beats, 'total': total, 'figs': figs, 'keys': keys}})
+            out.append({'op': 'chord_write', 'input': {'mode': mode, 'beats': beats, 'total': total, 'figs': figs, 'keys': keys,
+                                                        'extras': rng.random() < 0.4}})
     for _ in range(6000 if thorough else 250):
         notes, total = _gen_melody_notes(rng, rng.randint(1, 30 if thorough else 7))
         out.append({'op': 'melody_write', 'input': {'notes': notes, 'total': total, 'events': _gen_events(rng, notes, total)}})
-    # end to end
+    # end to end.  Every distinct (key_change_prob, chord_change_prob, chord_pitch_out_of_key_prob) costs 0.8 s (1164 x 1164
+    # Python loop in the library): the fixed triples plus triples drawn INDEPENDENTLY per run (they change with VERIF_SEED),
+    # some keeping one or two parameters at their default
+    chord_tuples = list(CHORD_PARAMS[:4 if thorough else 3])
+    for _ in range(6 if thorough else 2):
+        t = {}
+        for name, vals in (('key_change_prob', [0.0005, 0.005, 0.05, 0.2]), ('chord_change_prob', [0.1, 0.25, 0.75, 0.9]),
+                           ('chord_pitch_out_of_key_prob', [0.02, 0.08, 0.15, 0.4])):
+            if rng.random() < 0.7:
+                t[name] = rng.choice(vals)
+        chord_tuples.append(t)
     for i in range(400 if thorough else 24):
         T = rng.randint(1, 64 if thorough and i % 5 == 0 else 10)
-        params = dict(CHORD_PARAMS[rng.randrange(4 if thorough else 3)] or {})
-        params['chord_note_concentration'] = rng.choice([100.0, 100.0, 10.0, 37.5])
-        inp = {'k': rng.randint(1, 11), 'params': params, 'addkeys': rng.random() < 0.5}
+        params = dict(chord_tuples[i % len(chord_tuples)] or {})     # every tuple of the run is used
+        if rng.random() < 0.75:
+            params['chord_note_concentration'] = rng.choice([100.0, 10.0, 37.5, 1.0, 250.0])
+        inp = {'k': rng.randint(1, 11), 'params': params, 'addkeys': rng.random() < 0.5, 'extras': rng.random() < 0.4}
         if rng.random() < 0.6:
             g = _gen_grid(rng)
             total = (T - 1) * g['spc'] + rng.choice([g['spc'], g['spc'] // 2])
@@ -445,6 +484,18 @@ def cases(rng, tier, n=None):
         out.append({'op': 'chords_e2e', 'input': inp})
     for _ in range(300 if thorough else 30):
         out.append(_gen_near_tie_first_frame(rng))
+    for _ in range(2000 if thorough else 120):      # public helper sequence_note_pitch_vectors, both argument forms
+        notes, total = _gen_melody_notes(rng, rng.randint(1, 12), end_note_prob=0.3)
+        if rng.random() < 0.5:
+            spf = rng.choice([16, 32, 48, 64, 100]) * GRID
+        else:
+            spf = [_gen_time(rng, 0, max(1, total // GRID + 8)) for _ in range(rng.randint(0, 6))]
+            if spf and rng.random() < 0.3:
+                spf.append(rng.choice(spf))
+        out.append({'op': 'pitch_vectors', 'input': {'notes': notes, 'total': total, 'spf': spf}})
+    for _ in range(300 if thorough else 30):         # two-step use: melody inference on its own output
+        notes, total = _gen_melody_notes(rng, rng.randint(1, 8))
+        out.append({'op': 'melody_twice', 'input': {'notes': notes, 'total': total}})
     for _ in range(40 if thorough else 5):
         out += _gen_out_of_key_sweep(rng)
     for i in range(4000 if thorough else 150):
@@ -500,6 +551,15 @@ def _chord_proto(a, notes, shift=0):
         note.start_time = _sec(s)
         note.end_time = _sec(e)
     ns.total_time = _sec(a['total'])
+    if a.get('extras'):
+        # things inference must leave alone: key signatures (replaced only with add_key_signatures=True), text annotations
+        # that are neither chords nor beats, a control change, a second tempo-free field
+        for t, key in ((0, 3), (a['total'] // 2, 10)):
+            ks = ns.key_signatures.add(); ks.time = _sec(t); ks.key = key
+        ta = ns.text_annotations.add(); ta.time = _sec(a['total'] // 4); ta.text = 'rit.'
+        ta.annotation_type = music_pb2.NoteSequence.TextAnnotation.UNKNOWN
+        cc = ns.control_changes.add(); cc.time = 0.0; cc.control_number = 64; cc.control_value = 100
+        ns.filename = 'x.mid'
     if a['mode'] == 'fixed':
         ns.tempos.add().qpm = a['qpm']
         ts = ns.time_signatures.add()
@@ -512,6 +572,30 @@ def _chord_proto(a, notes, shift=0):
     if a['mode'] == 'beats_q':
         return sequences_lib.quantize_note_sequence_absolute(ns, 64)
     return ns
+
+
+def _chords_only_added(orig, seq, addkeys):
+    """infer_chords_for_sequence may only APPEND chord-symbol annotations and, with add_key_signatures, replace the key
+    signatures; everything else of the sequence must be byte-identical."""
+    from note_seq.protobuf import music_pb2
+    CH = music_pb2.NoteSequence.TextAnnotation.CHORD_SYMBOL
+    n = len(orig.text_annotations)
+    if any(ta.annotation_type != CH for ta in seq.text_annotations[n:]):
+        return False
+    exp = music_pb2.NoteSequence(); exp.CopyFrom(orig)
+    got = music_pb2.NoteSequence(); got.CopyFrom(seq)
+    del got.text_annotations[n:]
+    if addkeys:
+        del exp.key_signatures[:]
+        del got.key_signatures[:]
+    return exp.SerializeToString(deterministic=True) == got.SerializeToString(deterministic=True)
+
+
+def _melody_only_added(orig, seq):
+    from note_seq.protobuf import music_pb2
+    got = music_pb2.NoteSequence(); got.CopyFrom(seq)
+    del got.notes[len(orig.notes):]
+    return orig.SerializeToString(deterministic=True) == got.SerializeToString(deterministic=True)
 
 
 def _frame_times(a, T=None):
@@ -639,9 +723,12 @@ def _impl(case):
     op, a = case['op'], case['input']
     if op in ('melody_vit', 'melody_vit_z'):
         from note_seq import melody_inference as mi
-        ev = mi._melody_viterbi(a['pitches'], _np(a['frames']), _np(a['trans']))
+        fr, tr, pl = _np(a['frames']), _np(a['trans']), list(a['pitches'])
+        ev = mi._melody_viterbi(pl, fr, tr)
         path, evs = _events_to_path(ev, a['pitches'], mi)
-        return ['OK', path, evs]
+        import numpy as np
+        pure = bool(np.array_equal(fr, _np(a['frames'])) and np.array_equal(tr, _np(a['trans'])) and pl == a['pitches'])
+        return ['OK', path, evs, pure]
     if op in ('chord_vit', 'chord_vit_full'):
         from note_seq import chord_inference as ci
         if op == 'chord_vit_full':
@@ -653,10 +740,14 @@ def _impl(case):
         try:
             ci._CHORDS = list(range(a['nc']))
             ci._KEY_CHORDS = list(itertools.product(range(12), ci._CHORDS))
-            res = ci._key_chord_viterbi(_np(a['frames']), _np(a['kc']), _np(a['trans']))
+            fr, kc, tr = _np(a['frames']), _np(a['kc']), _np(a['trans'])
+            res = ci._key_chord_viterbi(fr, kc, tr)
         finally:
             ci._CHORDS, ci._KEY_CHORDS = old
-        return ['OK', [int(k) * a['nc'] + int(c) for k, c in res]]
+        import numpy as np
+        pure = bool(np.array_equal(fr, _np(a['frames'])) and np.array_equal(kc, _np(a['kc'])) and
+                    np.array_equal(tr, _np(a['trans'])))
+        return ['OK', [int(k) * a['nc'] + int(c) for k, c in res], pure]
     if op == 'note_frames':
         return _impl_note_frames(a)
     if op == 'chord_write':
@@ -669,6 +760,10 @@ def _impl(case):
         return _impl_melody_e2e(a)
     if op == 'reject':
         return _impl_reject(a)
+    if op == 'pitch_vectors':
+        return _impl_pitch_vectors(a)
+    if op == 'melody_twice':
+        return _impl_melody_twice(a)
     raise ValueError(op)
 
 
@@ -702,6 +797,7 @@ def _impl_chord_write(a):
     from note_seq import chord_inference as ci
     from note_seq.protobuf import music_pb2
     seq = _chord_proto(a, [[60, 0, a['total']]])
+    before = music_pb2.NoteSequence(); before.CopyFrom(seq)
     path = [(k, ci._CHORDS[f]) for k, f in zip(a['keys'], a['figs'])]
     kw = {'add_key_signatures': True}
     if a['mode'] == 'fixed' and a['cpb'] is not None:
@@ -732,13 +828,14 @@ def _impl_chord_write(a):
     for ta in seq.text_annotations:
         if ta.annotation_type == music_pb2.NoteSequence.TextAnnotation.BEAT:
             beat_steps.setdefault(_tk(ta.time), int(ta.quantized_step))
-    return ['OK', written, keys, steps, got.get('frames'), sorted(beat_steps.items())]
+    return ['OK', written, keys, steps, got.get('frames'), sorted(beat_steps.items()), _chords_only_added(before, seq, True)]
 
 
 def _impl_melody_write(a):
     from note_seq import melody_inference as mi
     ns = _melody_proto(a['notes'], a['total'])
     n0 = len(ns.notes)
+    before = _melody_proto(a['notes'], a['total'])
     path = [mi.REST if k == 0 else (p, k == 1) for k, p in a['events']]
     orig = mi._melody_viterbi
     try:
@@ -754,7 +851,7 @@ def _impl_melody_write(a):
     notes = [[_tk(x.start_time), _tk(x.end_time), int(x.pitch)] for x in ns.notes[n0:]]
     ok_instr = all(x.instrument == instr and x.velocity == mi.MELODY_VELOCITY for x in ns.notes[n0:])
     used = sorted(set(x.instrument for x in ns.notes[:n0]))
-    return ['OK', notes, bool(ok_instr), int(instr), used]
+    return ['OK', notes, bool(ok_instr), int(instr), used, _melody_only_added(before, ns)]
 
 
 def _capture(module, name):
@@ -797,6 +894,7 @@ def _impl_chords_e2e(a):
         kw['chords_per_bar'] = a['cpb']
     for shift in (0, a['k']):
         seq = _chord_proto(a, a['notes'], shift=shift)
+        before = music_pb2.NoteSequence(); before.CopyFrom(seq)
         orig, wrapper, store = _capture(ci, '_key_chord_viterbi')
         with _memo_transition():
             try:
@@ -807,6 +905,15 @@ def _impl_chords_e2e(a):
                     return ['EXC', type(e).__name__]
             finally:
                 ci._key_chord_viterbi = orig
+            # the same call again on an identical sequence must give the identical result (no state between calls)
+            same = True
+            if shift == 0 and a['total'] <= 4 * a.get('spc', a['total']):
+                again = music_pb2.NoteSequence(); again.CopyFrom(before)
+                try:
+                    ci.infer_chords_for_sequence(again, **kw)
+                    same = again.SerializeToString(deterministic=True) == seq.SerializeToString(deterministic=True)
+                except Exception:
+                    same = False
         frame_ll, kc_ll, trans_ll = store['args']
         nc = len(ci._CHORDS)
         path = [int(k) * nc + ci._CHORDS.index(c) for k, c in store['res']]
@@ -820,7 +927,8 @@ def _impl_chords_e2e(a):
         keys = [[_tk(k.time), int(k.key)] for k in seq.key_signatures]
         doc = _documented_chord_model(a, kw, shift)
         r = {'attained': attained, 'best': best, 'anns': anns, 'keys': keys, 'frames': int(frame_ll.shape[0]),
-             'path': path, 'finite': bool(np.isfinite(best))}
+             'path': path, 'finite': bool(np.isfinite(best)), 'untouched': _chords_only_added(before, seq, a['addkeys']),
+             'repeat_same': same}
         # the key/chord path the RETURNED annotations denote (keys from the key signatures when they were requested,
         # otherwise from the Viterbi result, whose chords the oracle checks against the annotations)
         times = _frame_times(a)
@@ -938,19 +1046,33 @@ def _impl_melody_e2e(a):
     for shift in (0, k):
         ns = _melody_proto(a['notes'], a['total'], shift=shift)
         n0 = len(ns.notes)
+        before = _melody_proto(a['notes'], a['total'], shift=shift)
         orig, wrapper, store = _capture(mi, '_melody_viterbi')
         try:
             mi._melody_viterbi = wrapper
             try:
-                mi.infer_melody_for_sequence(ns, **a['params'])
+                instr = mi.infer_melody_for_sequence(ns, **a['params'])
             except Exception as e:
                 return ['EXC', type(e).__name__]
         finally:
             mi._melody_viterbi = orig
         notes = [[_tk(x.start_time), _tk(x.end_time), int(x.pitch) - shift] for x in ns.notes[n0:]]
+        # returned instrument = instrument of every added note, and new; nothing else changed; an identical second call on an
+        # identical sequence gives the identical result
+        again = _melody_proto(a['notes'], a['total'], shift=shift)
+        try:
+            instr2 = mi.infer_melody_for_sequence(again, **a['params'])
+            same = instr2 == instr and again.SerializeToString(deterministic=True) == ns.SerializeToString(deterministic=True)
+        except Exception:
+            same = False
+        side = {'instr_ok': isinstance(instr, int) and all(x.instrument == instr for x in ns.notes[n0:]) and
+                            instr not in set(x.instrument for x in ns.notes[:n0]),
+                'untouched': _melody_only_added(before, ns), 'repeat_same': bool(same)}
         if 'args' not in store:
-            out.append({'attained': 0.0, 'best': 0.0, 'notes': notes, 'frames': 0, 'delta': 0.0, 'frame_ll': '', 'nan': False,
-                        'events': [], 'struct_ok': True})
+            r = {'attained': 0.0, 'best': 0.0, 'notes': notes, 'frames': 0, 'delta': 0.0, 'frame_ll': '', 'nan': False,
+                 'events': [], 'struct_ok': True}
+            r.update(side)
+            out.append(r)
             continue
         pitches, frame_ll, trans_ll = store['args']
         path, evs = _events_to_path(store['res'], list(pitches), mi)
@@ -976,6 +1098,7 @@ def _impl_melody_e2e(a):
              'nan': bool(np.isnan(frame_ll).any() or np.isnan(trans_ll).any())}
         # the requested model, rebuilt outside infer_melody_for_sequence, and the score under it of the path the returned
         # notes denote
+        r.update(side)
         doc = _documented_melody_model(a, shift)
         r['wf'] = doc['wf'] if doc is not None else None
         if doc is not None and not (np.isnan(doc['frame_ll']).any() or np.isnan(doc['log_trans']).any()):
@@ -998,6 +1121,60 @@ def _impl_melody_e2e(a):
         out[0]['delta'] = out[1]['delta'] = delta
         out[0]['same_inf'] = out[1]['same_inf'] = same_inf
     return ['OK', out]
+
+
+def _impl_pitch_vectors(a):
+    import numpy as np
+    from note_seq import chord_inference as ci
+    ns = _melody_proto(a['notes'], a['total'])
+    before = ns.SerializeToString(deterministic=True)
+    spf = a['spf']
+    arg = _sec(spf) if isinstance(spf, int) else [_sec(t) for t in spf]
+    arg_copy = list(arg) if isinstance(arg, list) else arg
+    try:
+        x = ci.sequence_note_pitch_vectors(ns, arg)
+    except Exception as e:
+        return ['EXC', type(e).__name__]
+    pure = ns.SerializeToString(deterministic=True) == before and arg == arg_copy
+    # documented meaning: row f = unit-normalised vector of the time each pitch class sounds in frame f (zero if silent);
+    # frames are delimited by the sorted boundaries, the first / last one open-ended
+    if isinstance(spf, int):
+        n = -(-a['total'] // spf)
+        bounds = [k * spf for k in range(1, n)]
+    else:
+        bounds = sorted(spf)
+        n = len(bounds) + 1
+    if x.shape != (n, 12):
+        return ['OK', 'shape', list(x.shape), [n, 12], pure]
+    exp = np.zeros([n, 12])
+    for p0, s0, e0, _instr, drum, prog in a['notes']:
+        if drum or prog in _UNPITCHED:
+            continue
+        for f in range(n):
+            lo = bounds[f - 1] if f > 0 else min(s0, e0)
+            hi = bounds[f] if f < n - 1 else max(s0, e0)
+            ov = min(e0, hi) - max(s0, lo)
+            if ov > 0:
+                exp[f, p0 % 12] += _sec(ov)
+    norm = np.sqrt((exp ** 2).sum(axis=1))
+    exp[norm > 0] /= norm[norm > 0][:, None]
+    bad = np.argwhere(~np.isclose(x, exp, rtol=1e-9, atol=1e-12))
+    return ['OK', 'values', [int(v) for v in bad[0]] if len(bad) else None, int(n), pure]
+
+
+def _impl_melody_twice(a):
+    from note_seq import melody_inference as mi
+    ns = _melody_proto(a['notes'], a['total'])
+    try:
+        i1 = mi.infer_melody_for_sequence(ns)
+        n1 = len(ns.notes)
+        mid = [[int(x.pitch), _tk(x.start_time), _tk(x.end_time), int(x.instrument), int(x.is_drum), int(x.program)]
+               for x in ns.notes]
+        i2 = mi.infer_melody_for_sequence(ns)
+    except Exception as e:
+        return ['EXC', type(e).__name__]
+    added = [[_tk(x.start_time), _tk(x.end_time), int(x.pitch), int(x.instrument)] for x in ns.notes[n1:]]
+    return ['OK', int(i1), int(i2), mid, added]
 
 
 def _impl_reject(a):
@@ -1031,6 +1208,37 @@ def _impl_reject(a):
     elif w == 'chords-too-long':
         note.end_time = 1000.5; ns.total_time = 1000.5
         seq = sequences_lib.quantize_note_sequence(ns, 1)      # 1 s per chord => 1001 chords
+    elif w in ('chords-has-chords-late', 'chords-has-chords-unquantized'):
+        # a chord symbol stored AFTER beats and other text, at a late time; quantized or not
+        for i, t in enumerate([0.5, 1.0, 1.5]):
+            ta = ns.text_annotations.add(); ta.time = t; ta.annotation_type = music_pb2.NoteSequence.TextAnnotation.BEAT
+        ta = ns.text_annotations.add(); ta.time = 0.1; ta.text = 'dolce'
+        ta = ns.text_annotations.add(); ta.time = 1.9; ta.text = 'G7'
+        ta.annotation_type = music_pb2.NoteSequence.TextAnnotation.CHORD_SYMBOL
+        seq = sequences_lib.quantize_note_sequence(ns, 4) if w == 'chords-has-chords-late' else ns
+    elif w == 'chords-absolute-cpb':
+        seq = sequences_lib.quantize_note_sequence_absolute(ns, 8); kw['chords_per_bar'] = 1
+    elif w == 'chords-no-beats-other-text':
+        ta = ns.text_annotations.add(); ta.time = 1.0; ta.text = 'beat'      # text says beat, type does not
+        seq = ns
+    elif w == 'chords-no-beats-absolute':
+        seq = sequences_lib.quantize_note_sequence_absolute(ns, 8)
+    elif w in ('chords-too-long-beats', 'chords-just-short-enough'):
+        n_frames = ci._MAX_NUM_CHORDS + (1 if w == 'chords-too-long-beats' else 0)
+        note.end_time = n_frames * 0.25; ns.total_time = n_frames * 0.25
+        for i in range(1, n_frames):
+            ta = ns.text_annotations.add(); ta.time = i * 0.25
+            ta.annotation_type = music_pb2.NoteSequence.TextAnnotation.BEAT
+        ta = ns.text_annotations.add(); ta.time = 0.25; ta.annotation_type = music_pb2.NoteSequence.TextAnnotation.BEAT
+        seq = ns
+    elif w == 'melody-quantized-absolute':
+        seq = sequences_lib.quantize_note_sequence_absolute(ns, 8); fn = mi.infer_melody_for_sequence
+    elif w == 'melody-just-few-enough-frames':
+        del ns.notes[:]
+        for i in range(mi.MAX_NUM_FRAMES):
+            x = ns.notes.add(); x.pitch = 60; x.velocity = 80; x.start_time = i * 0.25; x.end_time = (i + 1) * 0.25
+        ns.total_time = mi.MAX_NUM_FRAMES * 0.25
+        seq = ns; fn = mi.infer_melody_for_sequence
     elif w == 'melody-quantized':
         seq = sequences_lib.quantize_note_sequence(ns, 4); fn = mi.infer_melody_for_sequence
     elif w == 'melody-too-many-frames':
@@ -1044,6 +1252,10 @@ def _impl_reject(a):
         seq = ns; fn = mi.infer_melody_for_sequence
     else:
         raise ValueError(w)
+    if fn is ci.infer_chords_for_sequence:
+        # a key signature that a rejected call must not have removed, although removal was requested
+        ks = seq.key_signatures.add(); ks.key = 5
+        kw['add_key_signatures'] = True
     before = seq.SerializeToString(deterministic=True)
     with _memo_transition():
         try:
@@ -1108,6 +1320,10 @@ def equal(case, io, mo):
     op = case['op']
     if op == 'melody_vit_z':
         return io[0] == 'OK' and io[1] == mo[1]
+    if op == 'melody_vit':
+        return io[:3] == mo
+    if op in ('chord_vit', 'chord_vit_full'):
+        return io[:2] == mo
     if op == 'chord_write':
         # chord annotations and key signatures; the model's frame grid must have as many frames as the implementation's
         return io[0] == 'OK' and io[1] == mo[1] and io[2] == mo[2] and io[4] == len(mo[3])
@@ -1159,6 +1375,8 @@ def oracle(case, io):
     op, a = case['op'], case['input']
     if io[0] == 'HARNESS-EXC':
         return {'kind': 'harness-exception', 'detail': io[1:]}
+    if op in ('melody_vit', 'melody_vit_z', 'chord_vit') and io[0] == 'OK' and io[-1] is False:
+        return {'kind': 'viterbi-mutated-its-arguments'}
     if op in ('melody_vit', 'melody_vit_z'):
         m = 2 * len(a['pitches']) + 1
         init = [None if (a['trans'][0][j] is None or a['frames'][0][j] is None) else a['trans'][0][j] + a['frames'][0][j]
@@ -1203,6 +1421,8 @@ def oracle(case, io):
         times = _frame_times(a, len(a['figs']))
         if io[4] != len(a['figs']):
             return {'kind': 'chord-frame-count', 'frames': io[4], 'expected': len(a['figs'])}
+        if not io[6]:
+            return {'kind': 'chord-write-sequence-changed-elsewhere'}
         v = _check_annotations('chord-annotation', written, times, a['figs']) or \
             _check_annotations('key-signature', keys, times, a['keys'])
         if v:
@@ -1223,6 +1443,8 @@ def oracle(case, io):
         if io[0] != 'OK':
             return {'kind': 'melody-write-raised', 'exc': io}
         notes = io[1]
+        if not io[5]:
+            return {'kind': 'melody-write-sequence-changed-elsewhere'}
         mel = [x for x in a['notes'] if _melodic(x)]
         total = a['total']
         times = [0] + sorted(set([x[1] for x in mel] + [x[2] for x in mel]) - {0, total})
@@ -1255,6 +1477,12 @@ def oracle(case, io):
             if r.get('wf'):
                 return {'kind': 'transition-distribution-not-stochastic', 'model': 'chords', 'why': r['wf'],
                         'params': a['params']}
+            if not r['untouched']:
+                return {'kind': 'chords-e2e-sequence-changed-elsewhere', 'addkeys': a['addkeys']}
+            if not r['repeat_same']:
+                return {'kind': 'chords-e2e-second-identical-call-differs'}
+            if not a['addkeys'] and a.get('extras') and len(r['keys']) != 2:
+                return {'kind': 'chords-e2e-key-signatures-changed-without-request'}
             if 'best_doc' not in r:
                 return {'kind': 'chords-e2e-documented-model-not-evaluable'}
             if not r['attained_doc'] >= r['best_doc'] - 1e-9 * max(1.0, abs(r['best_doc'])):
@@ -1290,6 +1518,12 @@ def oracle(case, io):
             if r.get('wf'):
                 return {'kind': 'transition-distribution-not-stochastic', 'model': 'melody', 'why': r['wf'],
                         'params': a['params']}
+            if not r['untouched']:
+                return {'kind': 'melody-e2e-sequence-changed-elsewhere'}
+            if not r['instr_ok']:
+                return {'kind': 'melody-e2e-wrong-instrument'}
+            if not r['repeat_same']:
+                return {'kind': 'melody-e2e-second-identical-call-differs'}
             if r['frames']:
                 if 'best_doc' not in r:
                     return {'kind': 'melody-e2e-documented-model-not-evaluable'}
@@ -1314,9 +1548,39 @@ def oracle(case, io):
                     'cause': 'midi-range-normalisation' if (d <= bound and r0.get('same_inf')) else 'unexplained',
                     'a': r0['attained'], 'b': r1['attained'], 'bound': bound}
         return None
+    if op == 'pitch_vectors':
+        if io[0] != 'OK':
+            return {'kind': 'pitch-vectors-raised', 'exc': io}
+        if not io[4]:
+            return {'kind': 'pitch-vectors-modified-its-arguments'}
+        if io[1] == 'shape':
+            return {'kind': 'pitch-vectors-frame-count', 'shape': io[2], 'expected': io[3]}
+        if io[2] is not None:
+            return {'kind': 'pitch-vector-is-not-the-normalised-sounding-time', 'frame_and_pitch_class': io[2]}
+        return None
+    if op == 'melody_twice':
+        if io[0] != 'OK':
+            return {'kind': 'melody-twice-raised', 'exc': io}
+        i1, i2, mid, added = io[1], io[2], io[3], io[4]
+        mel = [x for x in mid if _melodic(x)]
+        if i2 in set(x[3] for x in mid) or any(x[3] != i2 for x in added):
+            return {'kind': 'melody-twice-instrument-not-new', 'first': i1, 'second': i2}
+        onsets = set((x[0], x[1]) for x in mel)
+        prev_end = 0
+        for s0, e0, q, _i in added:
+            if not (isinstance(s0, int) and isinstance(e0, int) and prev_end <= s0 < e0 <= a['total']):
+                return {'kind': 'melody-twice-notes-overlap-or-out-of-range', 'note': [s0, e0, q]}
+            prev_end = e0
+            if (q, s0) not in onsets:
+                return {'kind': 'melody-twice-note-not-at-real-onset', 'note': [s0, e0, q]}
+        return None
     if op == 'reject':
         want = EXPECTED_REJECTION[a['which']]
         got = io[1] if io[0] == 'EXC' else None
+        if want == 'ACCEPTED':      # exactly at the documented limit: must NOT be rejected (and then it does add something)
+            if got is not None or io[2]:
+                return {'kind': 'input-at-the-limit-rejected-or-ignored', 'which': a['which'], 'got': got}
+            return None
         if got != want:
             return {'kind': 'rejection-differs-from-documentation', 'which': a['which'], 'got': got, 'expected': want}
         if not io[2]:
@@ -1333,6 +1597,10 @@ def nontrivial(case, io):
         return len(a.get('frames', [0, 0])) >= 2
     if op == 'note_frames':
         return len(io[2]) >= 1
+    if op == 'pitch_vectors':
+        return io[1] == 'values' and io[3] >= 2
+    if op == 'melody_twice':
+        return len(io[4]) >= 1
     if op in ('chord_write', 'melody_write'):
         return len(io[1]) >= 1
     if op == 'chords_e2e':
@@ -1344,7 +1612,7 @@ def nontrivial(case, io):
 
 def shrink(case):
     op, a = case['op'], dict(case['input'])
-    if 'notes' in a and op in ('note_frames', 'melody_e2e', 'melody_write', 'chords_e2e'):
+    if 'notes' in a and op in ('note_frames', 'melody_e2e', 'melody_write', 'chords_e2e', 'pitch_vectors', 'melody_twice'):
         for i in range(len(a['notes'])):
             b = dict(a); b['notes'] = a['notes'][:i] + a['notes'][i + 1:]
             if b['notes']:
